@@ -13,6 +13,7 @@ import (
 	"sort"
 	"strings"
 	"sync"
+	"sync/atomic"
 	"time"
 
 	"github.com/q191201771/lal/pkg/base"
@@ -187,6 +188,7 @@ func lifecycleDriver(env *Env) error {
 	}
 	out := make([][]M, len(scs))
 	var wg sync.WaitGroup
+	var slowChildren, skippedChildren int32
 	sem := make(chan struct{}, 12)
 	semHls := make(chan struct{}, 32) // scenarios with HLS subscribers spend their time waiting for the handler's sweep
 	// launch order: the scenarios that mostly sleep first (HLS subscribers wait for the handler's sweep, auto-stop
@@ -213,8 +215,19 @@ func lifecycleDriver(env *Env) error {
 				var evs []M
 				if len(scs[i].Cfg.PushTargets) > 0 && env.Child == "" {
 					// relay push runs in goroutines lal owns: a panic there kills the process, so such a
-					// scenario runs in a child and its death becomes an observation
+					// scenario runs in a child and its death becomes an observation.
+					// On a tree where these scenarios leave the model's path every wait of the child runs into its
+					// bound: after a number of children that died or took longer than a healthy one ever does, the
+					// remaining ones are not started (their absence is reported, what was observed is judged)
+					if atomic.LoadInt32(&slowChildren) >= 8 {
+						atomic.AddInt32(&skippedChildren, 1)
+						return
+					}
+					t0 := time.Now()
 					evs = lcRunInChild(scs[i], env.Seed)
+					if d := time.Since(t0); d > 25*time.Second || (len(evs) > 0 && evs[len(evs)-1]["ev"] == "Died") {
+						atomic.AddInt32(&slowChildren, 1)
+					}
 				} else {
 					runLifecycleScenario(scs[i], func(m M) { evs = append(evs, m) })
 				}
@@ -226,6 +239,10 @@ func lifecycleDriver(env *Env) error {
 	go launch(hlsIdx, semHls)
 	launch(append(slowIdx, restIdx...), sem)
 	wg.Wait()
+	if n := atomic.LoadInt32(&skippedChildren); n > 0 {
+		// a line of its own in the trace: the check names it and does not count the run as complete
+		out[0] = append([]M{{"ev": "skipped", "n": int(n)}}, out[0]...)
+	}
 	for i := range scs {
 		if scs[i].Cfg.Leak > 0 {
 			time.Sleep(200 * time.Millisecond)
